@@ -9,7 +9,9 @@ LEVEL = ("Static analysis of linfa-trees: (route) the comparison that sends a tr
          "masks are built and the comparison that descends left in make_prediction are the same canonical relation between "
          "the row's feature value and the split value; (limits) creating a split is dominated by the min_weight_split, "
          "max_depth and min_impurity_decrease tests, candidate splits are skipped when either side is below min_weight_leaf, "
-         "children are created at depth + 1. Necessary conditions of 'every training sample is routed by prediction to the "
+         "children are created at depth + 1; (weights) side-weight accumulators start from zero or a total of sample weights and the "
+         "impurity-mixing fraction divides by a total of sample weights; (layout) the records are read through axis-aware accessors "
+         "only. Necessary conditions of 'every training sample is routed by prediction to the "
          "leaf it was routed to while fitting' and 'honours its limits' for all data; impurity arithmetic and leaf "
          "majorities are not decided.")
 ASSUME = ["rustc resolution/typeck; HIR faithfully dumped"]
